@@ -112,6 +112,10 @@ class Mod(roundtrip.RTMod):
                 return [(OK, ("enum", OKV, (a0,)), st)]
             return [(OK, ("enum", ERRV, (unk("opaque-parse"),)), st)]
         # opaque externals: an atom parses to itself and prints as itself
+        if c in ("chrono::naive::date::NaiveDate::parse_from_str", "chrono::naive::date::NaiveDate::format"):
+            r = strftime_call(I, c, args, st)
+            if r is not None:
+                return r
         if c in ("chrono::naive::date::NaiveDate::parse_from_str", "<url::Url as core::str::traits::FromStr>::from_str",
                  "<debversion::Version as core::str::traits::FromStr>::from_str"):
             a0 = I.deref_val(st, args[0])
@@ -124,6 +128,59 @@ class Mod(roundtrip.RTMod):
         if c == "<alloc::vec::Vec<T, A> as core::ops::deref::Deref>::deref" or c.endswith("as core::ops::deref::Deref>::deref"):
             return [(OK, I.deref_val(st, args[0]), st)]
         return super().intrinsic(I, c, args, st, n)
+
+
+# ---- chrono strftime pairing -------------------------------------------------------------------------------------
+# A calendar date is an opaque atom.  Printing it with a pattern and reading the text back with a pattern gives the same
+# date exactly when both patterns denote the same sequence of items and the items determine a date consistently
+# (chrono's `Parsed::to_naive_date`): year+month+day, year+ordinal, or ISO year+ISO week+weekday.  `%G-%m-%d` (ISO
+# week-numbering year with calendar month/day) prints another year around New Year and is not a date on reading.
+STRF_ALIAS = {"%F": "%Y-%m-%d", "%D": "%m/%d/%y", "%T": "%H:%M:%S", "%R": "%H:%M", "%h": "%b", "%-d": "%d", "%-m": "%m"}
+STRF_BASES = [{"%Y", "%m", "%d"}, {"%Y", "%b", "%d"}, {"%Y", "%B", "%d"}, {"%Y", "%j"}, {"%G", "%V", "%u"}, {"%G", "%V", "%a"}, {"%G", "%V", "%A"}]
+
+
+def strftime_norm(fmt):
+    for a, b in STRF_ALIAS.items():
+        fmt = fmt.replace(a, b)
+    return fmt
+
+
+def strftime_date_ok(fmt):
+    items = set(re.findall(r"%[A-Za-z]", strftime_norm(fmt)))
+    cal = items & {"%Y", "%G", "%m", "%b", "%B", "%d", "%j", "%V", "%u", "%a", "%A", "%y", "%g", "%C", "%U", "%W", "%e", "%w"}
+    return any(cal == b or (b <= cal and cal - b <= {"%a", "%A", "%u", "%j"} and "%G" not in cal - b) for b in STRF_BASES) and not ({"%G", "%V"} & cal and {"%Y", "%m", "%d"} & cal)
+
+
+def strftime_call(I, c, args, st):
+    """atoms carry the pattern they were printed with ("name@%Y-%m-%d") or read with ("name#%Y-%m-%d")"""
+    if c.endswith("::format"):
+        d, f = I.deref_val(st, args[0]), I.deref_val(st, args[1])
+    else:
+        d, f = I.deref_val(st, args[0]), I.deref_val(st, args[1])
+    fp = symstr.pieces_of(f)
+    dp = symstr.pieces_of(d)
+    if fp is None or not symstr.is_concrete(fp) or dp is None or len(dp) != 1 or dp[0][0] != "atom":
+        return None
+    fmt = strftime_norm(symstr.concrete(fp))
+    name, cls = dp[0][1], dp[0][2]
+    good = strftime_date_ok(fmt)
+    if c.endswith("::format"):
+        if "#" in name:                       # a date read from text with pattern r: printing with the same pattern restores the text
+            base, r = name.split("#", 1)
+            if r == fmt and good:
+                return [(OK, symstr.atom(base, cls), st)]
+            return [(OK, symstr.atom(name + "@" + fmt, cls), st)]
+        if good:
+            return [(OK, symstr.atom(name + "@" + fmt, cls), st)]
+        return [(OK, symstr.atom(name + "@!" + fmt, cls), st)]     # prints something, but not the date's own year/month/day
+    if "@" in name:                           # text printed from a date with pattern w
+        base, w = name.split("@", 1)
+        if w == fmt and good:
+            return [(OK, ("enum", OKV, (symstr.atom(base, cls),)), st)]
+        return [(OK, ("enum", ERRV, (unk("date: printed with %s, read with %s" % (w, fmt)),)), st)]
+    if not good:
+        return [(OK, ("enum", ERRV, (unk("date: pattern %s does not determine a date" % fmt),)), st)]
+    return [(OK, ("enum", OKV, (symstr.atom(name + "#" + fmt, cls),)), st)]
 
 
 def field_values(F, fld, some_mode):
